@@ -160,6 +160,8 @@ TRANSLATORS = {
     "py2lean_spi.py": [],      # gammafit, gammastd, gammastd_grp, gammastd_yxt
     "py2lean_stats.py": [],    # mean_grp, do_mean, autocorr_1d_float, mk_*
     "py2lean_wcv.py": [],      # ws2dwcv, ws2dwcvp
+    "py2lean_ac.py": [],       # autocorr_1d_int (whole), autocorr_1d dispatcher, autocorr / autocorr_tyx wrappers
+    "py2lean_tyx.py": [],      # ws2doptvplc_tyx (prange read as range; independence of the rows: C12)
     "py2lean_glue.py": [],     # accessor / utility control logic: _iteragg, get_calibration_indices, spi, to_linspace, mean_grp accessor
 }
 
